@@ -14,7 +14,7 @@ func rule(tier string) string {
 		"[baseline] every such directory x --baseline v; [ooo] EVERY split of {1..4} into {absent, present at the first apply, added afterwards} x first apply n in {all,1} x the three exec orders: apply, add files, status, apply, status, apply, status; " +
 		"[fail] every plain directory over {1,2,3} x every failing (file, statement) x tx-mode {none,file} x continuation {apply again, fix the file and apply, set v for every v, set without version}; " +
 		"[set] every directory over {1,2,3} x {file, checkpoint} x apply n in {none,1,all} x set v for every v in {1,2,3,9} and without version, then status, apply, status; " +
-		"[nonlinear-fail] out-of-order file that fails under non-linear; [random] seeded random sequences of 5-9 operations (apply n/order/tx-mode/dry-run, set, add file or checkpoint out of order or newer, delete file, fix). " +
+		"[nonlinear-fail] out-of-order file that fails under non-linear; [gone] the partially applied file is deleted (with / without other migration files left); [random] seeded random sequences of 5-9 operations (apply n/order/tx-mode/dry-run, set, add file or checkpoint out of order or newer, delete file, fix). " +
 		"Every CLI answer is one model query (directory + observed table + command). Non-trivial = scenario in which a revisions table with at least one row was reached and status answered; distinct by scenario id"
 }
 
@@ -192,6 +192,17 @@ func generate(tier string, r *rng.R) []scenario {
 		nl.TxMode = "none"
 		add("nonlinear-fail", false, dirSpec{mk("1", false), mk("3", false)},
 			apply(0, "linear"), op{Kind: "add", Files: []fileSpec{bad}}, nl, apply(0, "non-linear"))
+	}
+	// [gone] the partially applied file disappears (MissingMigrationError / "migration file with version not found")
+	for _, k := range []int{0, 1} {
+		bad := mk("1", false)
+		bad.Bad = k
+		first := apply(0, "linear")
+		first.TxMode = "none"
+		add("gone", false, dirSpec{bad, mk("2", false)}, first, op{Kind: "del", Ver: "1"}, apply(0, "linear"))
+		add("gone", false, dirSpec{bad}, first, op{Kind: "add", Files: []fileSpec{mk("2", true)}}, op{Kind: "del", Ver: "1"}, apply(0, "linear"))
+		add("gone", false, dirSpec{bad, mk("3", false)}, first, op{Kind: "add", Files: []fileSpec{mk("2", true)}}, op{Kind: "del", Ver: "1"}, apply(0, "non-linear"),
+			op{Kind: "set", Arg: "3"}, apply(0, "linear"))
 	}
 	// [random]
 	nrand := 60
